@@ -1,6 +1,7 @@
 """C05 - identities unique, in range, held only by placed instances."""
 from mc.props import _cellprop
 from mc.props import _masterprop
+from mc.props import c10
 from mc.worlds import cellcfg, cellmon, mastercfg, mastermon
 
 BUDGET = {'quick': 600, 'thorough': 2400}
@@ -84,14 +85,49 @@ def _m4():
     return cfg
 
 
+class CrashSpec(c10.Spec):
+    """The crash-point enumeration of C10 with the identity monitors: the
+    identities a newly elected master restores from a half-published cycle
+    are unique, in range and held by the placed."""
+    exception_clause = 'cycle-failed'
+
+
+def _m1c():
+    """A group of one: its identity moves, within one cycle, from an
+    instance that loses its server to a pending one; the master dies at
+    every storage write of that cycle and a new master takes over."""
+    cfg = _m1()
+    cfg['crash_in_handlers'] = True
+    # ... and then a further member of the group arrives
+    cfg['after_crash'] = [('app+', 'id', True),
+                          (('pres+', 's1', 0, True), ('app+', 'id', True))]
+    cfg['seeds'] = [
+        (('app+', 'id', True), ('app+', 'ib', True)),
+        (('app+', 'id', True), ('app+', 'id', True)),
+        # the holder arrived AFTER the pending member that will take over
+        # (which did not fit the only server up when it arrived)
+        (('pres-', 's0', True), ('pres-', 's1', True), ('app+', 'ib', True),
+         ('app+', 'id', True), ('pres+', 's0', 0, True)),
+    ]
+    cfg['events'] = mastercfg.ev(
+        ('app+', 'id'), ('app-', 0), ('app-', 1),
+        ('pres-', 's0'), ('pres-', 's1'), ('pres-', 's2'),
+        ('pres+', 's0', 0), ('pres+', 's1', 0),
+        ('idg', 'g', 2), ('idg', 'g', 0), ('restart',),
+    )
+    return cfg
+
+
 def configs(ctx):
     if ctx.quick:
         return [('K4', _k4(), 4, 2), ('K4f', _k4f(), 3, 1),
                 ('M1', _m1(), 3, 1, Spec),
-                ('M4', _m4(), 5, 0, Spec)]
+                ('M4', _m4(), 5, 0, Spec),
+                ('M1-crash', _m1c(), 1, 1, CrashSpec)]
     return [('K4', _k4(), 6, 2), ('K4f', _k4f(), 5, 1),
             ('M1', _m1(), 5, 2, Spec),
-            ('M4', _m4(), 8, 1, Spec)]
+            ('M4', _m4(), 8, 1, Spec),
+            ('M1-crash', _m1c(), 3, 1, CrashSpec)]
 
 
 RULE = ('BFS over histories of arrivals/removals/evictions/server failure/'
